@@ -53,6 +53,13 @@ type sub struct {
 	B *field.String `index:"02"`
 }
 
+// written and packed as a whole only: every Pack shows one writer's values in all positions
+type whole struct {
+	F2  *field.String `index:"2"`
+	F4  *field.String `index:"4"`
+	F70 *field.String `index:"70"`
+}
+
 func main() {
 	seed, _ := strconv.ParseInt(os.Args[1], 10, 64)
 	k, _ := strconv.Atoi(os.Args[2])
@@ -60,6 +67,10 @@ func main() {
 	m := iso8583.NewMessage(spec)
 	m.MTI("0100")
 	c := field.NewComposite(compSpec)
+	c2 := field.NewComposite(compSpec)
+	m2 := iso8583.NewMessage(spec)
+	m2.MTI("0100")
+	var torn []string
 	var mu sync.Mutex
 	var packs [][]byte
 	written := map[string]bool{"": true}
@@ -77,7 +88,46 @@ func main() {
 				written[val] = true
 				written[fmt.Sprint(num)] = true
 				mu.Unlock()
-				switch r.Intn(26) {
+				switch r.Intn(32) {
+				case 26:
+					// operations that fail must leave the object usable (no lock left behind)
+					m.Field(999, val)
+					m.BinaryField(998, []byte(val))
+					m.UnsetFields("2.1")
+					m.Marshal(data{})
+					m.Unmarshal(data{})
+				case 27:
+					c.Marshal(sub{})
+					c.Unmarshal(sub{})
+					c.UnsetSubfields("01.1")
+					c.Unpack([]byte("9"))
+					c.SetBytes([]byte("99"))
+				case 28:
+					short := val[:5]
+					c2.Marshal(&sub{A: field.NewStringValue(short), B: field.NewStringValue(short)})
+				case 29:
+					if p, err := c2.Pack(); err == nil && len(p) == 21 && string(p[7:12]) != string(p[16:21]) {
+						mu.Lock()
+						torn = append(torn, fmt.Sprintf("composite packed %q: the two subfields come from different Marshal calls", p))
+						mu.Unlock()
+					}
+				case 30:
+					short := val[:5]
+					m2.Marshal(&whole{F2: field.NewStringValue(short), F4: field.NewStringValue(short), F70: field.NewStringValue(short)})
+				case 31:
+					if p, err := m2.Pack(); err == nil {
+						g := iso8583.NewMessage(spec)
+						if g.Unpack(p) == nil {
+							a, _ := g.GetString(2)
+							b, _ := g.GetString(4)
+							d, _ := g.GetString(70)
+							if a != b || b != d {
+								mu.Lock()
+								torn = append(torn, fmt.Sprintf("message packed fields 2=%q 4=%q 70=%q: they come from different Marshal calls", a, b, d))
+								mu.Unlock()
+							}
+						}
+					}
 				case 0:
 					m.MTI([]string{"0100", "0200", "0800"}[r.Intn(3)])
 				case 1:
@@ -149,13 +199,20 @@ func main() {
 	go func() { wg.Wait(); close(done) }()
 	select {
 	case <-done:
-	case <-time.After(120 * time.Second):
+	case <-time.After(45 * time.Second):
 		fmt.Println("DEADLOCK-OR-HANG")
 		os.Exit(3)
 	}
 	// every Pack result is the encoding of a state some sequential order reaches: it decodes, and every value in it
 	// was written by somebody
 	bad := 0
+	for _, t := range torn {
+		fmt.Printf("TORN-PACK %s\n", t)
+		bad++
+		if bad > 3 {
+			break
+		}
+	}
 	for _, p := range packs {
 		g := iso8583.NewMessage(spec)
 		if err := g.Unpack(p); err != nil {
